@@ -1164,8 +1164,16 @@ where
                 } else {
                     match &*ident.sym {
                         "Array" | "Function" | "Object" | "Set" | "Map" | "WeakSet" | "WeakMap"
-                        | "Date" | "Promise" | "Error" | "RegExp" => {
+                        | "Date" | "Promise" | "Error" | "RegExp"
+                        // (the wrapper interfaces are inhabited by the primitives as well)
+                        | "String" | "Number" | "Boolean" | "Symbol" | "BigInt" => {
                             runtime_types.insert(Some(ident.sym.clone()));
+                        }
+                        "ReadonlyArray" => {
+                            runtime_types.insert(Some(atom!("Array")));
+                        }
+                        "CallableFunction" | "NewableFunction" => {
+                            runtime_types.insert(Some(atom!("Function")));
                         }
                         "Partial" | "Required" | "Readonly" | "Record" | "Pick" | "Omit"
                         | "InstanceType" => {
